@@ -1,6 +1,7 @@
 use crate::engine::{Ctx, Report, Violation};
 use serde_json::Value;
 
+pub mod c01;
 pub mod c02;
 pub mod c12;
 
@@ -11,6 +12,7 @@ pub struct Prop {
 }
 
 pub static PROPS: &[Prop] = &[
+	Prop { id: "C01", run: c01::run, replay: c01::replay },
 	Prop { id: "C02", run: c02::run, replay: c02::replay },
 	Prop { id: "C03", run: c02::run_c03, replay: c02::replay_c03 },
 	Prop { id: "C12", run: c12::run, replay: c12::replay },
